@@ -93,6 +93,15 @@ fn polish(e: &Ex, out: &mut Vec<String>) {
     }
 }
 
+/// `l_lo + … + l_(hi-1)` with `l_i = i % 7 + 1`, split in the middle (the same tree as `bigSum` in Main.lean)
+fn big_sum(lo: usize, hi: usize) -> Ex {
+    if hi <= lo + 1 {
+        return Num((lo % 7 + 1) as i64, 0);
+    }
+    let mid = (lo + hi) / 2;
+    Bin("+", Box::new(big_sum(lo, mid)), Box::new(big_sum(mid, hi)))
+}
+
 fn unpolish(ws: &mut std::slice::Iter<&str>, depth: usize) -> Option<Ex> {
     if depth > 200 {
         return None;
@@ -109,6 +118,14 @@ fn unpolish(ws: &mut std::slice::Iter<&str>, depth: usize) -> Option<Ex> {
             let a = unpolish(ws, depth + 1)?;
             let b = unpolish(ws, depth + 1)?;
             Bin(op, Box::new(a), Box::new(b))
+        }
+        // macro of the size family: balanced sum of n small constants (2n-1 nodes)
+        "s" => {
+            let n: usize = rest.parse().ok()?;
+            if n == 0 || n > 2_000_000 {
+                return None;
+            }
+            big_sum(0, n)
         }
         "c" if rest.is_empty() => {
             let c = unpolish(ws, depth + 1)?;
@@ -606,6 +623,24 @@ fn parse_case(line: &str) -> Option<Case> {
     let w: Vec<&str> = line.split_whitespace().collect();
     match w.as_slice() {
         ["U", t] => Some(Case { portable: false, line: line.to_string(), text: dec_str(t)?, env: Env::new(), tree: None, unicode_only: true }),
+        ["Z", e, tree @ ..] if !tree.is_empty() => {
+            let mut env = Env::new();
+            if *e != "-" {
+                for item in e.split(',') {
+                    let (n, x) = item.split_once(':')?;
+                    env.insert(dec_str(n)?, dec_str(x)?);
+                }
+            }
+            let mut it = tree.iter();
+            let t = unpolish(&mut it, 0)?;
+            if it.next().is_some() {
+                return None;
+            }
+            // the text is rendered here (not sent): minimal parentheses, style by the size of the line
+            let mut r = Rng::new(tree.len() as u64);
+            let text = render(&t, 0, (line.len() % 2) as u8, &mut r);
+            Some(Case { portable: false, line: line.to_string(), text, env, tree: Some(t), unicode_only: false })
+        }
         [k @ ("E" | "P"), e, t, tree @ ..] => {
             let mut env = Env::new();
             if *e != "-" {
@@ -1668,6 +1703,52 @@ fn main() {
             .collect();
         out.put(make_case(text, &env0, None));
     }
+    // 6b. size family: a huge sub-tree as RIGHT operand / branch / assigned value, with node counts around
+    //     the powers of two a narrowed length field would wrap at (2^8, 2^16) and one far above 2^16.
+    //     `s<n>` has 2n-1 nodes, `p- s<n>` 2n.
+    let mut sizes: Vec<String> = vec![];
+    for n in [128usize, 129, 32768, 32769] {
+        sizes.push(format!("s{n}"));
+        sizes.push(format!("p- s{n}"));
+    }
+    sizes.push("s100000".to_string());
+    if thorough {
+        sizes.push("s500000".to_string());
+        sizes.push("p- s65536".to_string());
+    }
+    let templates = [
+        "b* n2 BIG", "b+ BIG n1", "b= vx b+ n3 BIG", "b+= vb BIG", "c n1 BIG n7", "c n0 n7 BIG", "c BIG n5 n7",
+        "c n1 b+ b* p- BIG n0 n5 n7", "b|| n0 BIG", "b&& n1 BIG", "b|| n1 BIG", "b- n1 BIG", "b* BIG BIG2",
+        "c n0 BIG b* n3 BIG2", "b<< n1 b- BIG BIG", "p- BIG", "b= vx c vz BIG BIG2",
+    ];
+    for tpl in templates {
+        for (i, big) in sizes.iter().enumerate() {
+            let big2 = &sizes[(i + 3) % sizes.len()];
+            let desc = tpl.replace("BIG2", big2).replace("BIG", big);
+            let line = format!("Z {} {}", enc_env(&env0), desc);
+            let mine = out.idx % out.shard.1 == out.shard.0;
+            out.idx += 1;
+            if mine {
+                match parse_case(&line) {
+                    Some(c) => {
+                        let (obs, oracle) = run_case(&c, false);
+                        emit(&line, &obs, &oracle);
+                        out.count += 1;
+                    }
+                    None => emit(&line, "bad-case", "-"),
+                }
+            }
+            // the small members of the family also go through the model's own tokenizer/parser/evaluator
+            // (text and fully expanded tree are sent), which ties the `s<n>` macro and the renderer
+            if i < 4 {
+                if let Some(c) = parse_case(&line) {
+                    let t = c.tree.clone().unwrap();
+                    out.put(make_case(c.text.clone(), &env0, Some(&t)));
+                }
+            }
+        }
+    }
+
     // 7. shell level: the expansions run by the whole shell at top level, in functions (with and without
     //    `typeset` locals of the same name, read-only ones, ones without value), in subshells, in a function
     //    called by the function that declared the locals; with read-only and array targets and `set -u`
